@@ -29,13 +29,16 @@ Section C10.
      expr_cache_pure / js_isolation / node_json_fresh, C20) - to be instantiated by the integrator *)
   Hypothesis CInv_mono : forall used used' c,
     (forall x, In x used -> In x used') -> CInv used c -> CInv used' c.
-  Hypothesis eval_cache_transparent : forall c s w,
-    fst (eval true c s w) = fst (eval false c s w).
+  Hypothesis eval_cache_transparent : forall s w,
+    content_stable_per_id s -> NoDup (w_ids w) ->
+    fst (eval true c0 s w) = fst (eval false c0 s w).
   Hypothesis eval_id_renaming : forall (f : N -> N) m s w,
+    content_stable_per_id s -> NoDup (w_ids w) ->
     (forall x y, In x (w_ids w) -> In y (w_ids w) -> f x = f y -> x = y) ->
     fst (eval m c0 s (w_rename f w)) = fst (eval m c0 s w).
   Hypothesis eval_caches_sound : forall used c m s w,
     CInv used c -> (forall i, In i (w_rec_ids w) -> ~ In i used) -> content_stable_per_id s ->
+    NoDup (w_ids w) ->
     fst (eval m c s w) = fst (eval m c0 s w) /\ CInv (w_rec_ids w ++ used) (snd (eval m c s w)).
   Notation run_env := (run_env schema V C eval marshal marshal_err_cont H canon).
   Notation Inv := (Inv C CInv).
@@ -125,17 +128,18 @@ Qed.
    pooling and JS caches off) satisfy Inv. *)
 Example c10_hypotheses_satisfiable :
   (forall used used' c, (forall x, In x used -> In x used') -> tCInv used c -> tCInv used' c) /\
-  (forall c s w, fst (teval true c s w) = fst (teval false c s w)) /\
-  (forall (f : N -> N) m s w,
+  (forall s w, tguard s -> NoDup (w_ids w) -> fst (teval true tc0 s w) = fst (teval false tc0 s w)) /\
+  (forall (f : N -> N) m s w, tguard s -> NoDup (w_ids w) ->
      (forall x y, In x (w_ids w) -> In y (w_ids w) -> f x = f y -> x = y) ->
      fst (teval m tc0 s (w_rename f w)) = fst (teval m tc0 s w)) /\
   (forall used c m s w, tCInv used c -> (forall i, In i (w_rec_ids w) -> ~ In i used) -> tguard s ->
+     NoDup (w_ids w) ->
      fst (teval m c s w) = fst (teval m tc0 s w) /\ tCInv (w_rec_ids w ++ used) (snd (teval m c s w))) /\
   Pipeline.Inv tcache tCInv h_fresh /\ Pipeline.Inv tcache tCInv h_warm /\ Pipeline.Inv tcache tCInv h_off /\
   tguard OnRecord.
 Proof.
-  split; [exact t_CInv_mono|]. split; [exact t_cache_transparent|].
-  split; [exact t_id_renaming|]. split; [exact t_caches_sound|].
+  split; [exact t_CInv_mono|]. split; [intros; apply t_cache_transparent|].
+  split; [intros; apply t_id_renaming; assumption|]. split; [intros; apply t_caches_sound; assumption|].
   split; [exact Inv_h_fresh|]. split; [exact Inv_h_warm|]. split; [exact Inv_h_off|reflexivity].
 Qed.
 
@@ -147,3 +151,52 @@ Example c10_instance_replace :
   t_run h_warm OnRecord t_ctx (permute [4; 0; 3; 2; 1] t_units) =
   permute [4; 0; 3; 2; 1] (t_run h_fresh OnRecord t_ctx t_units).
 Proof. split; vm_compute; reflexivity. Qed.
+
+(* ---- with JavaScript (Proofs/PipelineJs.v; see Props/C13.v caches_invisible_js for the model) --- *)
+From OV Require Model.Js Proofs.Js Proofs.PipelineJs.
+Module MJ := OV.Model.Js.
+Module PJ := OV.Proofs.Js.
+Module PJS := OV.Proofs.PipelineJs.
+
+Section C10_JS.
+  Variable r : MJ.rt.
+  Variable compile : N -> option MJ.script.
+  Hypothesis r_wf : PJ.rt_wf r.
+  Variable query : tree -> bytes -> path -> option (list path).
+  Variable ext : bytes -> option bytes.
+  Variable fsigs : bytes -> option fsig.
+  Variable fcall0 : tree -> bytes -> path -> list value -> cfres.
+  Variable pcall : tree -> bytes -> path -> cfres.
+  Hypothesis query_valid : forall root x p ps,
+    valid root p -> query root x p = Some ps -> Forall (valid root) ps.
+  Variable js_of : tree -> bytes -> path -> list value -> option (MJ.call * MJ.sched).
+  Variable matches : MJ.call * MJ.sched -> MJ.call * MJ.sched -> bool.
+  Hypothesis matches_spec : forall a b, matches a b = true ->
+    PJ.call_spec r compile (fst a) (snd a) = PJ.call_spec r compile (fst b) (snd b).
+  Variable cf_of : MJ.outcome * option bytes -> cfres.
+  Variable jscalls : bool -> vdecl -> world -> list (MJ.call * MJ.sched).
+  Variable js_guard : vdecl -> Prop.
+  Hypothesis jscalls_wf : forall m s w, js_guard s -> NoDup (w_ids w) ->
+    forall c sc, In (c, sc) (jscalls m s w) ->
+      PJ.call_wf c sc /\ (forall id j, MJ.c_node c = Some (id, j) -> In id (w_rec_ids w)).
+  Hypothesis jscalls_stable : forall m s w, js_guard s -> NoDup (w_ids w) ->
+    PJ.content_stable_per_id (map fst (jscalls m s w)).
+  Variable progcap nodecap : N.
+  Variable marshal : value -> option bytes.
+  Variable marshal_err_cont : bool.
+  Variable H : bytes -> bytes.
+  Variable canon : tree -> bytes.
+  Notation eval_js := (PJS.eval_js r compile query ext fsigs fcall0 pcall js_of matches cf_of jscalls).
+  Notation run_env_js := (run_env vdecl value MJ.jsstate eval_js marshal marshal_err_cont H canon).
+  Notation InvJ := (PJS.InvJ r compile).
+
+  Theorem run_app_js : forall h ha hb s ctx a b,
+    InvJ h -> InvJ ha -> InvJ hb -> js_guard s ->
+    nofatal (run_env_js ha s ctx a) ->
+    run_env_js h s ctx (a ++ b) = run_env_js ha s ctx a ++ run_env_js hb s ctx b.
+  Proof.
+    exact (PJS.run_app_js r compile r_wf query ext fsigs fcall0 pcall query_valid js_of matches
+             matches_spec cf_of jscalls js_guard jscalls_wf jscalls_stable progcap nodecap
+             marshal marshal_err_cont H canon).
+  Qed.
+End C10_JS.
